@@ -5,5 +5,6 @@ CONSTANTS NC = 2
           MaxOps = 3
           MaxCrashes = 2
           SyncEvery = 1
+          MaxStale = 0
 INVARIANTS TypeOK IndexesAgree DirtyCovers NoDanglingIndex PinnedPreserved
 CHECK_DEADLOCK FALSE
